@@ -105,7 +105,8 @@ pub fn step(ctx: &Ctx, w: &World, ev: &mut Ev) {
         if f != 0 {
             ev.count("close_with_pending_funding");
         }
-        if ctx.post.position(v, &actor).map(|p| p.size != 0).unwrap_or(false) {
+        if ctx.post.position(v, &actor).map(|p| p.size != 0 || p.margin != 0 || p.notional != 0).unwrap_or(false) {
+            // (an all-zero record is no position; a record that still holds margin or notional is one)
             ev.violation("position_gone", side, json!({"post": format!("{:?}", ctx.post.position(v, &actor))}));
         }
         if e < 0 {
